@@ -277,6 +277,13 @@ func mutate(data []byte, format, mut string) []byte {
 	case "flip":
 		out[atoi(1)] ^= 1 << atoi(2)
 		return out
+	case "set":
+		out[atoi(1)] = byte(atoi(2))
+		return out
+	case "flip2":
+		out[atoi(1)] ^= 1 << atoi(2)
+		out[atoi(3)] ^= 1 << atoi(4)
+		return out
 	case "del":
 		p := atoi(1)
 		return append(out[:p], out[p+1:]...)
@@ -656,7 +663,7 @@ func work(ctx *runner.Ctx) {
 		}
 		np := 2
 		if !ctx.Quick() {
-			np = 4
+			np = len(programs)
 		}
 		for i := 0; i < np; i++ {
 			seeds = append(seeds, cs{Mode: "malformed", Format: f, Src: programs[i], SeedID: 100 + i})
@@ -683,6 +690,26 @@ func work(ctx *runner.Ctx) {
 			}
 			add(fmt.Sprintf("del:%d", p))
 			add(fmt.Sprintf("dup:%d", p))
+		}
+		if !ctx.Quick() {
+			// thorough: every byte set to 0x00/0x7f/0x80/0xff, and every pair of bit flips within the first 40
+			// bytes (the header of either format)
+			for p := 0; p < len(data); p++ {
+				for _, v := range []int{0, 127, 128, 255} {
+					if int(data[p]) != v {
+						add(fmt.Sprintf("set:%d:%d", p, v))
+					}
+				}
+			}
+			hdr := 40
+			if hdr > len(data) {
+				hdr = len(data)
+			}
+			for x := 0; x < hdr*8; x++ {
+				for y := x + 1; y < hdr*8; y++ {
+					add(fmt.Sprintf("flip2:%d:%d:%d:%d", x/8, x%8, y/8, y%8))
+				}
+			}
 		}
 		for n := 1; n <= 13; n++ {
 			for _, b := range []int{0, 2, 4, 255, '1', ' '} {
